@@ -156,7 +156,7 @@ def main():
             for p in hit + err:
                 for ln in res[p]["reports"][:8]:
                     print(f"             {p}: {ln[:300]}")
-    if not a.only:  # a partial run (--suffix) merges into the existing table
+    if True:  # a partial run (--suffix / --only) merges into the existing table
         (VERIF / "seeded" / "RESULTS.json").write_text(json.dumps(out, indent=1))
     return 0
 
